@@ -2887,6 +2887,35 @@ func init() {
 					what = fmt.Sprintf("random test cases differ with unusable files %v present", kinds)
 				}
 			}
+			// the same at the level of doCheck with -rapid.seed unset (the caller's seed is the argument): the random test cases
+			// are those of that seed, whatever an unusable file says about seeds
+			if what == "" {
+				fl0 := fl
+				fl0.Seed = 0
+				sd := r.u64() | 1
+				draws := func(d string) (string, rapid.VerifDoCheckResult) {
+					in := newInterp(prog, false)
+					var res rapid.VerifDoCheckResult
+					inDir(d, func() {
+						withFlags(fl0, func() {
+							runTB(func() { res = rapid.VerifDoCheck(newRecTB(name), farDeadline(), fl0.Checks, sd, "", true, in.prop) })
+						})
+					})
+					var out []string
+					for _, inv := range in.invs {
+						if !inv.isBuf {
+							out = append(out, strings.Join(inv.draws, ","))
+						}
+					}
+					return strings.Join(out, ";"), res
+				}
+				da, ra := draws(dir)
+				db, rb := draws(clean)
+				m.tag("doCheck-level-seed-flag-unset")
+				if da != db || ra.Valid != rb.Valid || ra.Invalid != rb.Invalid || ra.Seed != rb.Seed || ra.Err2.Msg() != rb.Err2.Msg() {
+					what = fmt.Sprintf("doCheck(seed=%d) without -rapid.seed: with unusable files %v present it ran other random test cases (valid %d/%d, failing seed %d/%d)", sd, kinds, ra.Valid, rb.Valid, ra.Seed, rb.Seed)
+				}
+			}
 			m.eval(src+strings.Join(kinds, ",")+fmt.Sprint(fl.Seed), true)
 			if what != "" {
 				p := flagsStr(fl)
